@@ -302,14 +302,20 @@ def run_project(project, strategy="off", gate_seed=0, interrupt_at=None, backend
     BaseRunContext = LR.RunContext
 
     class RecRunContext(BaseRunContext):
+        # the abort flag is set and recorded, and the context is read and recorded, under the recorder's lock: the
+        # order of the `interrupt` and `ctx` records is then the order of the effects (without it a worker could read
+        # the flag between the `interrupt` record and the assignment, and the trace would show a task run "after" the
+        # interrupt — seen once in 96 000 runs of a thorough tier)
         def is_task_to_be_skipped(self, task):
-            r = BaseRunContext.is_task_to_be_skipped(self, task)
-            rec.rec("ctx", rec.tid(task), r if r else None)
+            with rec.cv:
+                r = BaseRunContext.is_task_to_be_skipped(self, task)
+                rec.rec("ctx", rec.tid(task), r if r else None)
             return r
 
         def enable_task_abort(self):
-            rec.rec("interrupt")
-            return BaseRunContext.enable_task_abort(self)
+            with rec.cv:
+                rec.rec("interrupt")
+                return BaseRunContext.enable_task_abort(self)
 
     class EM(RecEM):
         pass
